@@ -509,6 +509,23 @@ func c19Verbatim(c *Ctx) {
 						idx = append(idx, k)
 					}
 				}
+				// strings.Join(parts[lo:hi], ":") names parts lo … hi-1 (an open end means the four parts required above)
+				if call, isCall := x.(*ssa.Call); isCall && callName(&call.Call) == "strings.Join" {
+					if sep, isK := call.Call.Args[1].(*ssa.Const); isK && sep.Value != nil && sep.Value.Kind() == constant.String && constant.StringVal(sep.Value) == ":" {
+						if sl, isSl := call.Call.Args[0].(*ssa.Slice); isSl {
+							lo, hi := int64(0), int64(4)
+							if sl.Low != nil {
+								lo, _ = constInt(sl.Low)
+							}
+							if sl.High != nil {
+								hi, _ = constInt(sl.High)
+							}
+							for k := lo; k < hi; k++ {
+								idx = append(idx, k)
+							}
+						}
+					}
+				}
 				return false
 			})
 			sort.Slice(idx, func(a, b int) bool { return idx[a] < idx[b] })
